@@ -142,6 +142,21 @@ def dispatch (f : String) (j : Json) : Option Json :=
       | some p => return Json.mkObj [("ok", Json.bool chk), ("params",
           Json.arr #[ofCVal p.leadC, ofSVal p.leadS, Json.bool p.leadNeg, ofCVal p.trailC, ofSVal p.trailS, Json.bool p.trailNeg]),
           ("legal", Json.bool (legalLead p.leadC && legalTrail p.trailC))]
+  | "C04.opt_resolve" => some <| Id.run do
+      -- dflt, ops = [["set", v] | ["enter", v] | ["exit"]], call (absent = not passed); values are opaque JSON
+      let some dflt := get j "dflt" | return err "bad dflt"
+      let some ops := (get j "ops").bind asArr | return err "bad ops"
+      let st : OptState String := ops.foldl (fun st o =>
+        match asArr o with
+        | some a =>
+          match (a[0]?.bind asStr) with
+          | some "set" => st.step (.set (a[1]!.compress))
+          | some "enter" => st.step (.enter (a[1]!.compress))
+          | some "exit" => st.step .exit
+          | _ => st
+        | none => st) ⟨dflt.compress, []⟩
+      let call := (get j "call").map Json.compress
+      return Json.mkObj [("effective", Json.str (effective call st)), ("cur", Json.str st.cur), ("depth", ofNat st.saved.length)]
   | "C04.space_set" => some <| Id.run do
       -- every code point (surrogates excluded) the model's `\s` accepts
       let l := (List.range 0x110000).filter (fun n => decide (n.isValidChar) && isSpaceCh (Char.ofNat n))
